@@ -181,7 +181,7 @@ def run(chk, facts):
     try:
         ec = syn.one_fn("extract_class", mod="generate::convert::class")
         loc = facts.loc_of(ec)
-        sk = [n for n in walk(ec["body"]) if n.get("k") == "mcall" and n["m"] in ("sorted_by_key", "sorted_by", "sorted")]
+        sk = [n for n in walk(ec["body"]) if n.get("k") == "mcall" and n["m"] in ("sorted_by_key", "sorted_by", "sorted", "sort_by_key", "sort_by", "sort_by_cached_key")]
         if len(sk) != 1:
             raise AnchorError(f"extract_class: {len(sk)} sorts")
         cl = strip(sk[0]["args"][0]) if sk[0]["args"] else None
